@@ -129,7 +129,7 @@ def session(concepts, seed, sid):
         others = [D(rng.sample(pool_o, 3), rng.sample(pool_p, 3),
                     [tuple(rng.random() < .5 for _ in range(3)) for _ in range(3)]) for _ in range(2)]
         for step in range(25):
-            op = rng.randrange(14)
+            op = rng.randrange(16)
             if op == 0:
                 args = (rng.choice(pool_o), rng.sample(pool_p, rng.randint(2, 4)))
                 if step % 3 == 0:
@@ -184,6 +184,17 @@ def session(concepts, seed, sid):
             elif op == 12:
                 key = (rng.choice(pool_o), rng.choice(pool_p))
                 rec(f'setitem{key}', lambda: (d.__setitem__(key, rng.random() < .5), state()))
+            elif op in (14, 15):
+                # in-place merges that may be refused (conflicting cells): the message, and the definition afterwards
+                o = rng.choice(others)
+                dd = d.copy()
+                sdd = lambda: (dd.objects, dd.properties, dd.bools, dd.tostring())
+                if op == 14:
+                    rec('intersection_update-maybe-refused', lambda: (dd.intersection_update(o), sdd()))
+                else:
+                    rec('union_update-maybe-refused', lambda: (dd.union_update(o), sdd()))
+                rec('state-after-in-place-merge', sdd)
+                rec('other-after-in-place-merge', lambda: (o.objects, o.properties, o.bools))
             else:
                 rec('tostring', lambda: (d.tostring(), d.tostring('csv'), d.crc32()))
         if kind == 2:
